@@ -373,6 +373,11 @@ class UGen:
             items.append([draw(st.sampled_from(t.units)) if t.units else None, 1])
             if items[0][0] is None:
                 return None
+            if draw(st.integers(0, 2)) == 0:
+                # the everyday spelling: Term(((60, 1), (SECOND, 1))) with a plain int
+                n = draw(st.sampled_from([60, 12, 5, 3, 7, 1000, 24]))
+                return self._emit({"d": "unit", "t": t.idx, "how": "term",
+                                   "items": [[["int", str(n)], 1], [items[0][0], 1]]})
         # optional numeric items
         for _ in range(draw(st.integers(0, 2))):
             fv = draw(_pos_factor())
@@ -706,6 +711,12 @@ def gen_ops_case(draw, max_base=3, max_steps=12):
         sib = _sibling_op(draw, m, ops[-1])
         if sib is not None:
             ops.append(sib)
+    # evaluate everything once more, and each pair also with the other operator in between
+    extra = []
+    for o in ops:
+        if o["op"] in ("*", "/"):
+            extra.append(dict(o, op="/" if o["op"] == "*" else "*"))
+    ops = ops + extra + [dict(o) for o in ops]
     return {"k": "u_ops", "uni": g.spec(), "ops": ops}
 
 
